@@ -111,7 +111,7 @@ def as_elems(I, v):
                     out.extend(bs[lo:hi])
                 else:
                     for i in range(lo, hi):
-                        out.append(Sym("byte", (val, i), "u8", attrs={"of": p}))
+                        out.append(Sym("byte", (val, i), "u8", attrs={"of": p, "src": (val, ty, endian, hi - lo if lo == 0 else None)}))
             else:
                 raise I.unanalysable("element view of symbolic byte string %r" % (v,))
         return out
@@ -831,7 +831,7 @@ def byte_at(I, b, idx):
             if p[0] == "u8":
                 return p[1]
             if p[0] == "int":
-                return Sym("byte", (p[1], p[4] + idx - pos), "u8", attrs={"of": p})
+                return Sym("byte", (p[1], p[4] + idx - pos), "u8", attrs={"of": p, "src": (p[1], p[2], p[3], p[5] - p[4] if p[4] == 0 else None)})
         pos += l
     lo, hi = b.fixed_len()
     if hi is not None and idx >= hi:
@@ -1365,15 +1365,15 @@ def _mk_from_bytes(endian):
             v = int.from_bytes(bytes(arr.fields), "little" if endian == "le" else "big", signed=INT_TYPES[ty][1])
             return v
         # reassemble bytes of one integer written by to_*_bytes
-        if isinstance(arr, Agg) and arr.fields and all(is_sym(x) and x.op == "byte" for x in arr.fields):
-            src = arr.fields[0].attrs.get("of")
-            if src is not None and all(x.attrs.get("of") is src and x.args[1] == i for i, x in enumerate(arr.fields)):
-                if src[3] == endian and src[2] == ty and src[5] - src[4] == len(arr.fields):
-                    return src[1]
-                s = Sym("from_bytes", (src[1],), ty)
-                s.attrs["src"] = src
-                s.attrs["endian"] = endian
-                return s
+        if isinstance(arr, Agg) and arr.fields and all(is_sym(x) and x.op == "byte" and "src" in x.attrs for x in arr.fields):
+            s0 = arr.fields[0].attrs["src"]
+            same = all(x.attrs["src"][0] is s0[0] and x.attrs["src"][1:] == s0[1:] and x.args[1] == i
+                       for i, x in enumerate(arr.fields))
+            if same and s0[2] == endian and s0[3] == len(arr.fields):
+                if s0[1] == ty:
+                    return s0[0]
+                if s0[1] in INT_TYPES and ty in INT_TYPES and INT_TYPES[s0[1]][0] == INT_TYPES[ty][0]:
+                    return I.cast_int(s0[0], s0[1], ty)
         return Sym("from_bytes", (), ty)
     return m
 
